@@ -642,7 +642,7 @@ func isBoolType(t types.Type) bool {
 // factOnEveryEdge: a fact satisfying pred dominates `in`, or holds on every incoming edge of its block.
 func factOnEveryEdge(in ssa.Instruction, pred func(Fact) bool) bool {
 	for _, fa := range FactsAt(in) {
-		if pred(fa) {
+		if pred(fa) || helperEveryPath(fa, pred) {
 			return true
 		}
 	}
@@ -653,7 +653,7 @@ func factOnEveryEdge(in ssa.Instruction, pred func(Fact) bool) bool {
 	for _, fs := range pp {
 		ok := false
 		for _, fa := range fs {
-			if pred(fa) {
+			if pred(fa) || helperEveryPath(fa, pred) {
 				ok = true
 			}
 		}
